@@ -14,6 +14,7 @@
 -/
 import KiraModel.Proofs.EffectsAVolPan
 import KiraModel.Proofs.EffectsAFilter
+import KiraModel.Proofs.SvfStabilityLemmas
 import KiraModel.Proofs.EffectsAEq
 import KiraModel.Proofs.EffectsADist
 import KiraModel.Proofs.EffectsAComp
@@ -607,5 +608,255 @@ example (t r m x : ℝ) (a l : ℕ) :
 example : (0 : ℝ) < 1 / 48000 ∧ (1000 : ℝ) * (1 / 48000) < 1 / 2 := by norm_num
 /-- after a tween has landed the parameter is at rest again (C06), so the laws apply from then on -/
 example (p : Parameter ℝ ℝ) (tgt : ℝ) (hp : Parameter.Landed p tgt) : p.Stagnant := hp.2.1
+
+end K
+
+namespace K
+
+/-! ## filter: stability of the state-variable core (energy argument, parameters at rest)
+
+`svfEnergy v` is the sum of the squares of the four integrator numbers (ic1eq, ic2eq; left, right),
+`frameSq x = x.left² + x.right²`, `svfV1 g k v x` is the band-pass tap `v1` the tick computes.
+`Filter.tickV s dt` is the per-frame transition `process` folds over the input
+(`Filter.process_stagnant`), i.e. `Filter.tick` with the resting parameter values. -/
+
+/-- the damping `k = 2 − 1.9·clamp(resonance, 0, 1)` of a filter at rest -/
+noncomputable def Filter.kRest (s : Filter ℝ) : ℝ :=
+  2 - 19 / 10 * clamp s.resonance.raw (0.0 : ℝ) (1.0 : ℝ)
+
+theorem Filter.kRest_pos (s : Filter ℝ) : 0 < s.kRest := by
+  have := (clamp01_mem s.resonance.raw).2
+  unfold Filter.kRest; linarith
+
+/-- the state part of the model's tick is `svfStep` at the model's own `g` and `k` -/
+theorem Filter.tickV_state (s : Filter ℝ) (dt : ℝ) (v : Frame ℝ × Frame ℝ) (f : Frame ℝ) :
+    (Filter.tickV s dt v f).1 = svfStep (Filter.g s.cutoff.raw dt) s.kRest v f := by
+  simp only [Filter.tickV, Filter.tick, Filter.coefs_real, svfStep, Filter.kRest]
+
+/-- **zero-input energy decay, one tick**: with `g > 0` (true below Nyquist, `C13_filter_defined`;
+    `k ≥ 0.1` always) a silent input frame lowers the integrator energy `ic1eq² + ic2eq²` (both
+    channels) by exactly `4·g·k·|v1|²`; so it never grows, and it drops strictly unless
+    `ic1eq = g·ic2eq` in both channels (the line on which the band-pass tap is 0). -/
+theorem C13_svf_zero_input_energy_decay (s : Filter ℝ) (dt : ℝ) (hg : 0 < Filter.g s.cutoff.raw dt)
+    (v : Frame ℝ × Frame ℝ) :
+    svfEnergy (Filter.tickV s dt v 0).1
+        = svfEnergy v - 4 * Filter.g s.cutoff.raw dt * s.kRest
+            * frameSq (svfV1 (Filter.g s.cutoff.raw dt) s.kRest v 0)
+      ∧ svfEnergy (Filter.tickV s dt v 0).1 ≤ svfEnergy v
+      ∧ (¬ (v.1.left = Filter.g s.cutoff.raw dt * v.2.left ∧ v.1.right = Filter.g s.cutoff.raw dt * v.2.right)
+          → svfEnergy (Filter.tickV s dt v 0).1 < svfEnergy v) := by
+  have hk := s.kRest_pos
+  rw [Filter.tickV_state, svfStep_energy_zero _ _ hg hk]
+  have hnn := frameSq_nonneg (svfV1 (Filter.g s.cutoff.raw dt) s.kRest v 0)
+  have hgk : 0 < 4 * Filter.g s.cutoff.raw dt * s.kRest := by positivity
+  refine ⟨rfl, by nlinarith, fun hne => ?_⟩
+  have hpos : 0 < frameSq (svfV1 (Filter.g s.cutoff.raw dt) s.kRest v 0) := by
+    rcases lt_or_eq_of_le hnn with h | h
+    · exact h
+    · exact absurd ((svfV1_zero_eq_zero_iff _ _ hg hk v).1 h.symm) hne
+  nlinarith
+
+/-- **zero-input boundedness for ever**: from any integrator state, after any number of silent
+    frames the integrator energy is at most the initial one — hence each of the four integrator
+    numbers stays within `√(initial energy)` for ever (stated with squares). -/
+theorem C13_svf_zero_input_bounded (s : Filter ℝ) (dt : ℝ) (hg : 0 < Filter.g s.cutoff.raw dt)
+    (v : Frame ℝ × Frame ℝ) (n : ℕ) :
+    let w := (runTick (Filter.tickV s dt) v (silence n)).1
+    svfEnergy w ≤ svfEnergy v
+      ∧ w.1.left ^ 2 ≤ svfEnergy v ∧ w.2.left ^ 2 ≤ svfEnergy v
+      ∧ w.1.right ^ 2 ≤ svfEnergy v ∧ w.2.right ^ 2 ≤ svfEnergy v := by
+  intro w
+  have hE : svfEnergy w ≤ svfEnergy v :=
+    runTick_silence_energy_le (Filter.tickV s dt) svfEnergy
+      (fun u => (C13_svf_zero_input_energy_decay s dt hg u).2.1) n v
+  have hc := svfEnergy_components w
+  exact ⟨hE, le_trans hc.1 hE, le_trans hc.2.1 hE, le_trans hc.2.2.1 hE, le_trans hc.2.2.2 hE⟩
+
+/-- the same through `process` itself: a filter at rest fed `n` silent frames (in one call; by
+    `C13_filter_chunk_free` in any slicing) ends with integrator energy at most the initial one. -/
+theorem C13_svf_zero_input_process_bounded (s : Filter ℝ) (h : s.Stagnant) (dt : ℝ) (info : Info ℝ)
+    (hg : 0 < Filter.g s.cutoff.raw dt) (n : ℕ) :
+    svfEnergy (Filter.ic (s.process (silence n) dt info).1) ≤ svfEnergy (Filter.ic s) := by
+  rw [Filter.process_stagnant s h]
+  exact (C13_svf_zero_input_bounded s dt hg (s.ic1eq, s.ic2eq) n).1
+
+/-- **energy gain per tick**: for every input frame `E' ≤ E + (g/k)·|x|²`, and summed over a run
+    with `|x|² ≤ B2`: `E ≤ E₀ + (g/k)·n·B2` (sharper than the uniform bound of
+    `C13_svf_bounded_input_bounded_state` for short runs). -/
+theorem C13_svf_energy_gain_per_tick (s : Filter ℝ) (dt : ℝ) (hg : 0 < Filter.g s.cutoff.raw dt)
+    (v : Frame ℝ × Frame ℝ) (xs : List (Frame ℝ)) (B2 : ℝ) (hB : ∀ x ∈ xs, frameSq x ≤ B2) :
+    (∀ u x, svfEnergy (Filter.tickV s dt u x).1
+        ≤ svfEnergy u + Filter.g s.cutoff.raw dt / s.kRest * frameSq x)
+      ∧ svfEnergy (runTick (Filter.tickV s dt) v xs).1
+        ≤ svfEnergy v + Filter.g s.cutoff.raw dt / s.kRest * (xs.length * B2) := by
+  have hk := s.kRest_pos
+  have hstep : ∀ u x, svfEnergy (Filter.tickV s dt u x).1
+      ≤ svfEnergy u + Filter.g s.cutoff.raw dt / s.kRest * frameSq x := by
+    intro u x
+    rw [Filter.tickV_state]
+    exact svfStep_energy_le _ _ hg hk u x
+  refine ⟨hstep, ?_⟩
+  have h1 := runTick_energy_le (Filter.tickV s dt) svfEnergy _ hstep xs v
+  have h2 := sum_frameSq_le xs B2 hB
+  have hc : 0 ≤ Filter.g s.cutoff.raw dt / s.kRest := by positivity
+  nlinarith
+
+theorem Filter.kRest_le_two (s : Filter ℝ) : s.kRest ≤ 2 := by
+  have := (clamp01_mem s.resonance.raw).1
+  unfold Filter.kRest; linarith
+
+/-- **strict contraction**: the weighted energy `W = Σ_channels ic1eq² + ic2eq² + (k/2)·ic1eq·ic2eq`
+    is positive definite (`½E ≤ W ≤ (3/2)E`) and every tick, for every input frame, gives
+    `W' ≤ (1 − λ)·W + C·|x|²` with the explicit rate `λ = g·k/(6·K) ∈ (0, 1]`,
+    `K = 3(1+gk)² + 3g² + 2`, and gain `C = 3g³k/(4K) + g(16/k + k)`; in particular with zero input
+    `W' ≤ (1 − λ)·W`: geometric decay. -/
+theorem C13_svf_strict_contraction (s : Filter ℝ) (dt : ℝ) (hg : 0 < Filter.g s.cutoff.raw dt) :
+    let g := Filter.g s.cutoff.raw dt
+    let k := s.kRest
+    0 < svfLam g k ∧ svfLam g k ≤ 1 ∧ 0 ≤ svfC g k
+      ∧ (∀ u, 1 / 2 * svfEnergy u ≤ svfW2 k u ∧ svfW2 k u ≤ 3 / 2 * svfEnergy u)
+      ∧ (∀ u x, svfW2 k (Filter.tickV s dt u x).1 ≤ (1 - svfLam g k) * svfW2 k u + svfC g k * frameSq x)
+      ∧ (∀ u, svfW2 k (Filter.tickV s dt u 0).1 ≤ (1 - svfLam g k) * svfW2 k u) := by
+  intro g k
+  have hk := s.kRest_pos
+  have hk2 := s.kRest_le_two
+  have hstep : ∀ u x, svfW2 k (Filter.tickV s dt u x).1 ≤ (1 - svfLam g k) * svfW2 k u + svfC g k * frameSq x := by
+    intro u x
+    rw [Filter.tickV_state]
+    exact svfStep_lyap g k hg hk hk2 u x
+  refine ⟨svfLam_pos g k hg hk, svfLam_le_one g k hg hk, svfC_nonneg g k hg hk,
+    fun u => svfW2_bounds k u hk hk2, hstep, fun u => ?_⟩
+  have h := hstep u 0
+  have e : frameSq (0 : Frame ℝ) = 0 := by
+    show (0 : ℝ) ^ 2 + (0 : ℝ) ^ 2 = 0
+    norm_num
+  rw [e, mul_zero, add_zero] at h
+  exact h
+
+/-- **bounded input, bounded state (BIBO for the integrators)**: if every input frame has
+    `x.left² + x.right² ≤ B2` then for every run, of any length, from any integrator state,
+    `E ≤ 3·E₀ + 2·(C/λ)·B2` — a bound independent of the run length (`E` the integrator energy,
+    `λ`, `C` the explicit constants of `C13_svf_strict_contraction`). -/
+theorem C13_svf_bounded_input_bounded_state (s : Filter ℝ) (dt : ℝ) (hg : 0 < Filter.g s.cutoff.raw dt)
+    (v : Frame ℝ × Frame ℝ) (xs : List (Frame ℝ)) (B2 : ℝ) (hB2 : 0 ≤ B2)
+    (hB : ∀ x ∈ xs, frameSq x ≤ B2) :
+    svfEnergy (runTick (Filter.tickV s dt) v xs).1
+      ≤ 3 * svfEnergy v
+        + 2 * (svfC (Filter.g s.cutoff.raw dt) s.kRest / svfLam (Filter.g s.cutoff.raw dt) s.kRest) * B2 := by
+  obtain ⟨hl0, hl1, hC, hW, hstep, -⟩ := C13_svf_strict_contraction s dt hg
+  set lam := svfLam (Filter.g s.cutoff.raw dt) s.kRest with hlam
+  set C := svfC (Filter.g s.cutoff.raw dt) s.kRest with hCdef
+  have hE0 := svfEnergy_nonneg v
+  have hq : 0 ≤ C / lam * B2 := by positivity
+  have hmul : lam * (C / lam * B2) = C * B2 := by field_simp
+  have hM : C * B2 ≤ lam * (3 / 2 * svfEnergy v + C / lam * B2) := by
+    have : 0 ≤ lam * (3 / 2 * svfEnergy v) := by positivity
+    nlinarith
+  have hfin := runTick_contract (Filter.tickV s dt) (svfW2 s.kRest) lam C B2
+    (3 / 2 * svfEnergy v + C / lam * B2) hl1 hC hM hstep xs hB v (by linarith [(hW v).2])
+  have hlow := (hW (runTick (Filter.tickV s dt) v xs).1).1
+  linarith
+
+/-- the per-mode constant of `C13_svf_output_bounded` -/
+def svfModeConst : FilterMode → ℝ
+  | .lowPass => 8
+  | .bandPass => 3
+  | .highPass => 63
+  | .notch => 26
+
+/-- **outputs are bounded by state and input**: for every integrator state and input frame the
+    output frame of one tick (the mode's tap, blended with the dry input by the clamped mix)
+    satisfies `|out|² ≤ c·(E + |x|²) + |x|²` with `c` = 8 (low-pass), 3 (band-pass), 63 (high-pass),
+    26 (notch) — squared sizes summed over both channels, `E` the integrator energy.  Together
+    with `C13_svf_bounded_input_bounded_state`: bounded input gives bounded output for ever. -/
+theorem C13_svf_output_bounded (s : Filter ℝ) (dt : ℝ) (hg : 0 < Filter.g s.cutoff.raw dt)
+    (v : Frame ℝ × Frame ℝ) (x : Frame ℝ) :
+    frameSq (Filter.tickV s dt v x).2 ≤ svfModeConst s.mode * (svfEnergy v + frameSq x) + frameSq x := by
+  have hk := s.kRest_pos
+  have hk2 := s.kRest_le_two
+  have hD : (1 + Filter.g s.cutoff.raw dt * (Filter.g s.cutoff.raw dt + s.kRest)) ≠ 0 := by positivity
+  have ha : 1 / (1 + Filter.g s.cutoff.raw dt * (Filter.g s.cutoff.raw dt + s.kRest))
+      * (1 + Filter.g s.cutoff.raw dt * (Filter.g s.cutoff.raw dt + s.kRest)) = 1 := by field_simp
+  have hl := svf_taps_sq _ _ _ v.1.left v.2.left x.left ha hg hk hk2
+  have hr := svf_taps_sq _ _ _ v.1.right v.2.right x.right ha hg hk hk2
+  have hm := clamp01_mem s.mix.raw
+  unfold Filter.kRest at hl hr
+  unfold Filter.tickV Filter.tick frameSq svfEnergy
+  simp only [Filter.coefs_real, svfTick_real, dryWet_real]
+  cases s.mode
+  all_goals
+    simp only [Filter.modeOutput, svfModeConst, Frame.sub, Frame.scale, r32_real]
+    refine le_trans (add_le_add (svf_blend_sq _ _ _ hm.1 hm.2) (svf_blend_sq _ _ _ hm.1 hm.2)) ?_
+    linarith [hl.1, hl.2.1, hl.2.2.1, hl.2.2.2, hr.1, hr.2.1, hr.2.2.1, hr.2.2.2]
+
+theorem svfModeConst_nonneg (m : FilterMode) : 0 ≤ svfModeConst m := by
+  cases m <;> simp [svfModeConst]
+
+/-- **bounded input, bounded output, for ever**: if every input frame has `|x|² ≤ B2` then every
+    output frame of the run — of any length, from any integrator state `v` — satisfies
+    `|out|² ≤ c·(3·E₀ + 2·(C/λ)·B2 + B2) + B2`, with `c` the mode constant of
+    `C13_svf_output_bounded` and `λ`, `C` those of `C13_svf_strict_contraction`. -/
+theorem C13_svf_bibo (s : Filter ℝ) (dt : ℝ) (hg : 0 < Filter.g s.cutoff.raw dt)
+    (v : Frame ℝ × Frame ℝ) (xs : List (Frame ℝ)) (B2 : ℝ) (hB2 : 0 ≤ B2)
+    (hB : ∀ x ∈ xs, frameSq x ≤ B2) :
+    ∀ o ∈ (runTick (Filter.tickV s dt) v xs).2,
+      frameSq o ≤ svfModeConst s.mode
+          * (3 * svfEnergy v
+              + 2 * (svfC (Filter.g s.cutoff.raw dt) s.kRest / svfLam (Filter.g s.cutoff.raw dt) s.kRest) * B2
+              + B2) + B2 := by
+  obtain ⟨hl0, hl1, hC, hW, hstep, -⟩ := C13_svf_strict_contraction s dt hg
+  set lam := svfLam (Filter.g s.cutoff.raw dt) s.kRest with hlam
+  set C := svfC (Filter.g s.cutoff.raw dt) s.kRest with hCdef
+  have hE0 := svfEnergy_nonneg v
+  have hmul : lam * (C / lam * B2) = C * B2 := by field_simp
+  have hM : C * B2 ≤ lam * (3 / 2 * svfEnergy v + C / lam * B2) := by
+    have : 0 ≤ lam * (3 / 2 * svfEnergy v) := by positivity
+    nlinarith
+  have hq : 0 ≤ C / lam * B2 := by positivity
+  have hc := svfModeConst_nonneg s.mode
+  refine runTick_out_inv (Filter.tickV s dt)
+    (fun u => svfW2 s.kRest u ≤ 3 / 2 * svfEnergy v + C / lam * B2) (fun x => frameSq x ≤ B2) _
+    ?_ ?_ xs hB v (by linarith [(hW v).2])
+  · intro u f hu hf
+    have h1 := hstep u f
+    have h3 : (1 - lam) * svfW2 s.kRest u ≤ (1 - lam) * (3 / 2 * svfEnergy v + C / lam * B2) :=
+      mul_le_mul_of_nonneg_left hu (by linarith)
+    have h4 : C * frameSq f ≤ C * B2 := mul_le_mul_of_nonneg_left hf hC
+    linarith
+  · intro u f hu hf
+    have h1 := C13_svf_output_bounded s dt hg u f
+    have h2 := (hW u).1
+    have h3 : svfModeConst s.mode * (svfEnergy u + frameSq f)
+        ≤ svfModeConst s.mode * (2 * (3 / 2 * svfEnergy v + C / lam * B2) + B2) :=
+      mul_le_mul_of_nonneg_left (by linarith) hc
+    have e : svfModeConst s.mode * (2 * (3 / 2 * svfEnergy v + C / lam * B2) + B2)
+        = svfModeConst s.mode * (3 * svfEnergy v + 2 * (C / lam) * B2 + B2) := by ring
+    linarith
+
+/-- the same through `process` itself: a filter at rest (in one call; by `C13_filter_chunk_free` in
+    any slicing) turns a bounded input into a bounded output, whatever its integrators held. -/
+theorem C13_svf_bibo_process (s : Filter ℝ) (h : s.Stagnant) (dt : ℝ) (info : Info ℝ)
+    (hg : 0 < Filter.g s.cutoff.raw dt) (xs : List (Frame ℝ)) (B2 : ℝ) (hB2 : 0 ≤ B2)
+    (hB : ∀ x ∈ xs, frameSq x ≤ B2) :
+    ∀ o ∈ (s.process xs dt info).2,
+      frameSq o ≤ svfModeConst s.mode
+          * (3 * svfEnergy (Filter.ic s)
+              + 2 * (svfC (Filter.g s.cutoff.raw dt) s.kRest / svfLam (Filter.g s.cutoff.raw dt) s.kRest) * B2
+              + B2) + B2 := by
+  rw [Filter.process_stagnant s h]
+  exact C13_svf_bibo s dt hg (s.ic1eq, s.ic2eq) xs B2 hB2 hB
+
+/-- non-vacuity: a 1 kHz filter at 48 kHz with resonance 0.5 has `g > 0`, is at rest, and the
+    bounded-input premise is met by a concrete signal -/
+example : 0 < Filter.g (Filter.new .lowPass (.fixed 1000) (.fixed 0.5) (.fixed 1) : Filter ℝ).cutoff.raw (1 / 48000) :=
+  (C13_filter_defined 1000 0.5 1 (1 / 48000) (by norm_num) (by norm_num)).1
+example : ∀ x ∈ [(⟨1, -1⟩ : Frame ℝ), ⟨0, 1⟩], frameSq x ≤ 2 := by
+  intro x hx
+  simp only [List.mem_cons, List.not_mem_nil, or_false] at hx
+  rcases hx with rfl | rfl <;> (unfold frameSq; norm_num)
+/-- the strictness premise of the decay theorem is satisfiable -/
+example : ¬ (((⟨1, 0⟩, ⟨0, 0⟩) : Frame ℝ × Frame ℝ).1.left = (1 / 2 : ℝ) * ((⟨1, 0⟩, ⟨0, 0⟩) : Frame ℝ × Frame ℝ).2.left
+    ∧ ((⟨1, 0⟩, ⟨0, 0⟩) : Frame ℝ × Frame ℝ).1.right = (1 / 2 : ℝ) * ((⟨1, 0⟩, ⟨0, 0⟩) : Frame ℝ × Frame ℝ).2.right) := by
+  norm_num
 
 end K
